@@ -249,6 +249,17 @@ def pair_check(ax, case, rec):
             Ao = np.asarray(OR.hessian([I1, None])[0], float).reshape(3, 3, 3, 3, -1)[..., 0]
             As = np.asarray(SV.hessian([I1, None])[0], float).reshape(3, 3, 3, 3, -1)[..., 0]
             rec.close("orthotropic=svk-tangent-at-I", relmax(Ao, As, float(np.abs(Ao).max())), 1e-10)
+            # material axes not aligned with the global ones: the tangent is the rotated orthotropic tangent
+            from scipy.spatial.transform import Rotation
+
+            Rm = Rotation.random(random_state=int(case["oseed"] % 2**31)).as_matrix()
+            if case["oseed"] % 4 == 0:
+                Rm = np.eye(3)[:, [1, 2, 0]]  # cyclic permutation of the axes
+            kw3 = {} if case["oseed"] % 2 else {"r3": Rm[:, 2].tolist()}
+            SVr = tt.Hyperelastic(tt.models.hyperelastic.saint_venant_kirchhoff_orthotropic, mu=muo, lmbda=lmb, r1=Rm[:, 0].tolist(), r2=Rm[:, 1].tolist(), **kw3)
+            Ar = np.asarray(SVr.hessian([I1, None])[0], float).reshape(3, 3, 3, 3, -1)[..., 0]
+            Aref = np.einsum("ia,jb,kc,ld,abcd->ijkl", Rm, Rm, Rm, Rm, Ao)
+            rec.close("orthotropic=svk-tangent-at-I(rotated material axes)", relmax(Ar, Aref, float(np.abs(Ao).max())), 1e-10)
             # compliance check: strain response to uniaxial stress along axis 1 has -nu12/E1 in direction 2
             C6 = np.array([[Ao[i, i, j, j] for j in range(3)] for i in range(3)])
             Sinv = np.linalg.inv(C6)
